@@ -78,7 +78,8 @@ type ChanObj struct {
 	id     int
 	tokens []int
 	// vector clocks of pending sends (race monitor)
-	clocks []VC
+	clocks     []VC
+	clocksFull []VC
 }
 
 // Opaque host objects (bytes.Buffer, bufio.Reader, regexp, ...) live in cells as *HostObj.
